@@ -19,6 +19,8 @@ Section val_ind'.
   Hypothesis Hbool : forall b, P (VBool b).
   Hypothesis Hmap : forall big vt m, Forall (fun kv => P (snd kv)) m -> P (VMap big vt m).
   Hypothesis Hlam : forall a r caps body, Forall P caps -> P (VLam a r caps body).
+  Hypothesis Hleft : forall v tr, P v -> P (VLeft v tr).
+  Hypothesis Hright : forall tl v, P v -> P (VRight tl v).
   Fixpoint val_ind' (v : val) : P v :=
     match v with
     | VNat z => Hnat z | VStr s => Hstr s | VAddr a => Haddr a
@@ -42,6 +44,8 @@ Section val_ind'.
                                                    | [] => Forall_nil P
                                                    | x :: r0 => Forall_cons x (val_ind' x) (go r0)
                                                    end) caps)
+    | VLeft x tr => Hleft x tr (val_ind' x)
+    | VRight tl x => Hright tl x (val_ind' x)
     end.
 End val_ind'.
 
@@ -76,6 +80,8 @@ Proof.
   - injection H as ->. apply IHa. reflexivity.
   - apply andb_prop in H. destruct H as [H1 H2]. f_equal; [apply IHa1 | apply IHa2]; assumption.
   - injection H as -> ->. apply andb_true_intro. split; [apply IHa1 | apply IHa2]; reflexivity.
+  - apply andb_prop in H. destruct H as [H1 H2]. f_equal; [apply IHa1 | apply IHa2]; assumption.
+  - injection H as -> ->. apply andb_true_intro. split; [apply IHa1 | apply IHa2]; reflexivity.
 Qed.
 
 Lemma ty_eqb_eq a b : ty_eqb a b = true <-> a = b.
@@ -93,6 +99,8 @@ Proof.
   - injection H as -> ->. apply andb_true_intro. split; [apply Bool.eqb_reflx | apply IHa; reflexivity].
   - apply andb_prop in H. destruct H as [H1 H2]. f_equal; [apply IHa1 | apply IHa2]; assumption.
   - injection H as -> ->. apply andb_true_intro. split; [apply IHa1 | apply IHa2]; reflexivity.
+  - apply andb_prop in H. destruct H as [H1 H2]. f_equal; [apply IHa1 | apply IHa2]; assumption.
+  - injection H as -> ->. apply andb_true_intro. split; [apply IHa1 | apply IHa2]; reflexivity.
 Qed.
 
 Lemma cval_eqb_eq a b : cval_eqb a b = true <-> a = b.
@@ -108,6 +116,10 @@ Proof.
   - injection H as ->. apply IHa. reflexivity.
   - apply andb_prop in H. destruct H as [H1 H2]. f_equal; [apply IHa1 | apply IHa2]; assumption.
   - injection H as -> ->. apply andb_true_intro. split; [apply IHa1 | apply IHa2]; reflexivity.
+  - apply andb_prop in H. destruct H as [H1 H2]. f_equal; [apply IHa; assumption | apply cty_eqb_eq; assumption].
+  - injection H as -> ->. apply andb_true_intro. split; [apply IHa; reflexivity | apply cty_eqb_eq; reflexivity].
+  - apply andb_prop in H. destruct H as [H1 H2]. f_equal; [apply cty_eqb_eq; assumption | apply IHa; assumption].
+  - injection H as -> ->. apply andb_true_intro. split; [apply IHa; reflexivity | apply cty_eqb_eq; reflexivity].
 Qed.
 
 Lemma key_eqb_eq a b : key_eqb a b = true <-> a = b.
@@ -139,6 +151,7 @@ Fixpoint cval_wf (c : cval) : bool :=
   | CN z => 0 <=? z
   | CSome x => cval_wf x
   | CPairV a b => cval_wf a && cval_wf b
+  | CLeft x _ | CRight _ x => cval_wf x
   | _ => true
   end.
 
@@ -152,6 +165,7 @@ Fixpoint wt (v : val) : bool :=
                     match l with [] => true | x :: r => ty_eqb t (type_of x) && wt x && go r end) l
   | VMap _ vt m => (fix go (m : list (Z * val)) : bool :=
                       match m with [] => true | (k, x) :: r => (0 <=? k) && ty_eqb vt (type_of x) && wt x && go r end) m
+  | VLeft x _ | VRight _ x => wt x
   | VLam _ _ caps _ => (fix go (l : list val) : bool := match l with [] => true | x :: r => wt x && go r end) caps
   | _ => true
   end.
@@ -179,7 +193,7 @@ Qed.
 (* a duplicable, well-typed value contains no ticket *)
 Lemma duplicable_mass0 k v : wt v = true -> duplicable (type_of v) = true -> mass k v = 0.
 Proof.
-  induction v as [| | | | a b IHa IHb | x IH | | t l IH | | big vt m IHm | la lr caps lbody IHc] using val_ind'; intros Hwt Hd; try reflexivity.
+  induction v as [| | | | a b IHa IHb | x IH | | t l IH | | big vt m IHm | la lr caps lbody IHc | lx ltr IHl | rtl rx IHr] using val_ind'; intros Hwt Hd; try reflexivity.
   - discriminate.
   - cbn [wt type_of duplicable mass] in *. apply andb_prop in Hwt, Hd. destruct Hwt, Hd.
     rewrite IHa, IHb by assumption. reflexivity.
@@ -196,12 +210,14 @@ Proof.
     apply andb_prop in Hwt. destruct Hwt as [Hx' Hr']. unfold entry_ok in Hx'. cbn [fst snd] in Hx'.
     apply andb_prop in Hx'. destruct Hx' as [Hx'' Hw]. apply andb_prop in Hx''. destruct Hx'' as [_ Ht].
     apply ty_eqb_eq in Ht. rewrite Hx; [|assumption | rewrite <- Ht; assumption]. rewrite IHr by assumption. reflexivity.
+  - cbn [wt type_of duplicable mass] in *. apply andb_prop in Hd. destruct Hd as [D1 D2]. apply IHl; assumption.
+  - cbn [wt type_of duplicable mass] in *. apply andb_prop in Hd. destruct Hd as [D1 D2]. apply IHr; assumption.
 Qed.
 
 (* ---- non-negativity ---- *)
 Lemma mass_nonneg k v : tickets_pos v = true -> 0 <= mass k v.
 Proof.
-  induction v as [| | | t c a | a b IHa IHb | x IH | | t l IH | | big vt m IHm | la lr caps lbody IHc] using val_ind'; intros Hp; try (cbn [mass]; lia).
+  induction v as [| | | t c a | a b IHa IHb | x IH | | t l IH | | big vt m IHm | la lr caps lbody IHc | lx ltr IHl | rtl rx IHr] using val_ind'; intros Hp; try (cbn [mass]; lia).
   - cbn [tickets_pos mass] in *. destruct (key_eqb k (t, c)); lia.
   - cbn [tickets_pos mass] in *. apply andb_prop in Hp. destruct Hp. specialize (IHa ltac:(assumption)).
     specialize (IHb ltac:(assumption)). lia.
@@ -215,6 +231,8 @@ Proof.
     induction m as [|[k0 x] r IHr]; [simpl; lia|].
     cbn [forallb map_mass snd] in *. inversion IHm as [|? ? Hx Hr]; subst. cbn [snd] in Hx.
     apply andb_prop in Hp. destruct Hp as [Hp1 Hp2]. specialize (Hx Hp1). specialize (IHr Hr Hp2). lia.
+  - cbn [tickets_pos mass] in *. apply IHl. exact Hp.
+  - cbn [tickets_pos mass] in *. apply IHr. exact Hp.
 Qed.
 
 Lemma stack_mass_nonneg k s : stack_pos s = true -> 0 <= stack_mass k s.
@@ -324,24 +342,28 @@ Ltac norm :=
 
 Lemma cval_ok c : cval_wf c = true -> wt (val_of_cval c) = true /\ tickets_pos (val_of_cval c) = true.
 Proof.
-  induction c as [z|x|t|x IH|a IHa b IHb]; cbn [cval_wf val_of_cval wt tickets_pos]; intros H; try (split; [exact H || reflexivity | reflexivity]).
+  induction c as [z|x|t|x IH|a IHa b IHb|x IH t|t x IH]; cbn [cval_wf val_of_cval wt tickets_pos]; intros H; try (split; [exact H || reflexivity | reflexivity]).
   - apply IH. exact H.
   - apply andb_prop in H. destruct H as [H1 H2]. destruct (IHa H1) as [A1 A2]. destruct (IHb H2) as [B1 B2].
     rewrite A1, A2, B1, B2. split; reflexivity.
+  - apply IH. exact H.
+  - apply IH. exact H.
 Qed.
 
 Lemma cval_mass k c : mass k (val_of_cval c) = 0.
 Proof.
-  induction c as [z|x|t|x IH|a IHa b IHb]; cbn [val_of_cval mass]; try reflexivity.
+  induction c as [z|x|t|x IH|a IHa b IHb|x IH t|t x IH]; cbn [val_of_cval mass]; try reflexivity.
   - exact IH.
   - rewrite IHa, IHb. reflexivity.
+  - exact IH.
+  - exact IH.
 Qed.
 
 (* a value accepted as ticket contents holds no ticket, and its contents are well-formed when it is *)
 Lemma content_of_facts k v : forall c, content_of v = Some c ->
   mass k v = 0 /\ (wt v = true -> cval_wf c = true).
 Proof.
-  induction v as [z|x|a|t0 c0 a0|a b IHa IHb|x IH|t|t l IH|b0|big vt m IHm|la lr caps lbody IHc] using val_ind'; intros c H; cbn [content_of] in H; try discriminate.
+  induction v as [z|x|a|t0 c0 a0|a b IHa IHb|x IH|t|t l IH|b0|big vt m IHm|la lr caps lbody IHc | lx ltr IHl | rtl rx IHr] using val_ind'; intros c H; cbn [content_of] in H; try discriminate.
   - injection H as <-. split; [reflexivity | intros W; exact W].
   - injection H as <-. split; [reflexivity | reflexivity].
   - destruct (content_of a) as [ca|] eqn:Ea; [|discriminate]. destruct (content_of b) as [cb|] eqn:Eb; [|discriminate].
@@ -351,6 +373,10 @@ Proof.
   - destruct (content_of x) as [cx|] eqn:Ex; [|discriminate]. injection H as <-.
     destruct (IH cx eq_refl) as [A1 A2]. cbn [mass wt cval_wf]. split; assumption.
   - destruct (cty_of_ty t) as [ct|]; [|discriminate]. injection H as <-. split; reflexivity.
+  - destruct (content_of lx) as [cx|] eqn:Ex; [|discriminate]. destruct (cty_of_ty ltr) as [ct|]; [|discriminate]. injection H as <-.
+    destruct (IHl cx eq_refl) as [A1 A2]. cbn [mass wt cval_wf]. split; assumption.
+  - destruct (cty_of_ty rtl) as [ct|]; [|discriminate]. destruct (content_of rx) as [cx|] eqn:Ex; [|discriminate]. injection H as <-.
+    destruct (IHr cx eq_refl) as [A1 A2]. cbn [mass wt cval_wf]. split; assumption.
 Qed.
 
 Ltac split_ands :=
@@ -614,7 +640,7 @@ Qed.
 Lemma pushable_facts v : wt v = true -> pushable (type_of v) = true ->
   tickets_pos v = true /\ forall k, mass k v = 0.
 Proof.
-  induction v as [| | | | a b IHa IHb | x IH | | t l IH | | big vt m IHm | la lr caps lbody IHc] using val_ind'; intros Hwt Hd;
+  induction v as [| | | | a b IHa IHb | x IH | | t l IH | | big vt m IHm | la lr caps lbody IHc | lx ltr IHl | rtl rx IHr] using val_ind'; intros Hwt Hd;
     try (split; [reflexivity | intros k; reflexivity]).
   - discriminate.
   - cbn [wt type_of pushable] in *. apply andb_prop in Hwt, Hd. destruct Hwt as [W1 W2], Hd as [D1 D2].
@@ -638,6 +664,8 @@ Proof.
       apply ty_eqb_eq in Ht. destruct (Hx Hw ltac:(rewrite <- Ht; exact Hd)) as [X1 X2]. destruct (IHr Hr Hr') as [R1 R2].
       rewrite X1, R1. split; [reflexivity|]. intros k. rewrite X2, R2. reflexivity. }
     destruct G as [G1 G2]. split; [exact G1|]. intros k. rewrite mass_map. apply G2.
+  - cbn [wt type_of pushable tickets_pos mass] in *. apply andb_prop in Hd. destruct Hd as [D1 D2]. apply IHl; assumption.
+  - cbn [wt type_of pushable tickets_pos mass] in *. apply andb_prop in Hd. destruct Hd as [D1 D2]. apply IHr; assumption.
 Qed.
 
 Lemma fold_caps_facts x caps : wt x = true -> tickets_pos x = true -> forallb wt caps = true ->
@@ -663,11 +691,11 @@ Qed.
 
 Lemma step_base_preserves f i :
   (forall a b, i <> IF_NONE a b) -> (forall a b, i <> IF_CONS a b) -> (forall a, i <> ITER a) -> (forall a, i <> MAP a) ->
-  i <> EXEC -> (forall a, i <> LOOP a) -> preserves (step (S f) i).
+  i <> EXEC -> (forall a, i <> LOOP a) -> (forall a b, i <> IF_LEFT a b) -> preserves (step (S f) i).
 Proof.
-  intros N1 N2 N3 N4 N5 N6.
+  intros N1 N2 N3 N4 N5 N6 N7.
   destruct i; try (exfalso; eapply N1; reflexivity); try (exfalso; eapply N2; reflexivity); try (exfalso; eapply N3; reflexivity);
-    try (exfalso; eapply N4; reflexivity); try (exfalso; apply N5; reflexivity); try (exfalso; eapply N6; reflexivity).
+    try (exfalso; eapply N4; reflexivity); try (exfalso; apply N5; reflexivity); try (exfalso; eapply N6; reflexivity); try (exfalso; eapply N7; reflexivity).
   all: try first [ apply TICKET_preserves | apply READ_TICKET_preserves | apply SPLIT_TICKET_preserves | apply JOIN_TICKETS_preserves
                  | apply EMPTY_MAP_preserves | apply UPDATE_preserves | apply GET_AND_UPDATE_preserves | apply MEM_preserves
                  | apply GET_preserves | apply APPLY_preserves ].
@@ -841,6 +869,17 @@ Proof.
     - intros k. specialize (R4 k). destruct (list_from_items_facts t items v k R2 Ev) as (_ & _ & F3).
       unfold with_stk in *. cbn [stk minted stack_mass] in *. rewrite F3, mass_list. lia.
   }
+  - { (* IF_LEFT *)
+      intros [sf s m] st' Hok H. cbn [step stk] in H.
+      destruct s as [|x s]; [discriminate|]. destruct x; try discriminate.
+      + set (st1 := with_stk {| self := sf; stk := VLeft x tr :: s; minted := m |} (x :: s)) in *.
+        assert (Hok1 : ok_stack (stk st1) = true) by (unfold st1; norm; exact Hok).
+        destruct (run_with_preserves (step f) bt (Hall bt) st1 st' Hok1 H) as [Hok' Hle].
+        split; [assumption|]. eapply le_state_trans; [|exact Hle]. intros k. unfold st1. norm. lia.
+      + set (st1 := with_stk {| self := sf; stk := VRight tl x :: s; minted := m |} (x :: s)) in *.
+        assert (Hok1 : ok_stack (stk st1) = true) by (unfold st1; norm; exact Hok).
+        destruct (run_with_preserves (step f) bf (Hall bf) st1 st' Hok1 H) as [Hok' Hle].
+        split; [assumption|]. eapply le_state_trans; [|exact Hle]. intros k. unfold st1. norm. lia. }
   - { (* EXEC *)
       intros [sf s m] st' Hok H. cbn [step stk self minted] in H.
       destruct s as [|x s]; [discriminate|]. destruct s as [|lam s]; [discriminate|]. destruct lam; try discriminate.
@@ -955,6 +994,12 @@ Proof.
         [|discriminate].
       destruct (list_from_items t items) as [v|]; [|discriminate]. injection H as <-.
       apply (map_with_keeps (step f) body (Hall body) Hno) in E. exact E. }
+  - { (* IF_LEFT *)
+      cbn [has_ticket_instr] in Hno. rewrite !existsb_fix in Hno. apply orb_false_elim in Hno. destruct Hno as [H1 H2].
+      intros [sf s m] st' H. cbn [step stk] in H.
+      destruct s as [|x s]; [discriminate|]. destruct x; try discriminate.
+      + apply (run_with_keeps (step f) bt (Hall bt) H1) in H. exact H.
+      + apply (run_with_keeps (step f) bf (Hall bf) H2) in H. exact H. }
   - { (* LOOP *)
       assert (Hno' := Hno). cbn [has_ticket_instr] in Hno. rewrite existsb_fix in Hno.
       intros [sf s m] st' H. cbn [step stk] in H.
@@ -1004,14 +1049,14 @@ Fixpoint tickets_of (v : val) : list (bytes * cval * Z) :=
   match v with
   | VTicket t c a => [(t, c, a)]
   | VPair a b => tickets_of a ++ tickets_of b
-  | VSome x => tickets_of x
+  | VSome x | VLeft x _ | VRight _ x => tickets_of x
   | VList _ l => (fix go (l : list val) := match l with [] => [] | x :: r => tickets_of x ++ go r end) l
   | _ => []
   end.
 
 Lemma tickets_pos_spec v : tickets_pos v = true -> forall tk0 cv0 amt, In (tk0, cv0, amt) (tickets_of v) -> 0 < amt.
 Proof.
-  induction v as [| | | t0 c0 a0 | p q IHa IHb | x IH | | t0 l IH | | big vt m IHm | la lr caps lbody IHc] using val_ind'; intros Hp tk0 cv0 amt Hin;
+  induction v as [| | | t0 c0 a0 | p q IHa IHb | x IH | | t0 l IH | | big vt m IHm | la lr caps lbody IHc | lx ltr IHl | rtl rx IHr] using val_ind'; intros Hp tk0 cv0 amt Hin;
     try (simpl in Hin; contradiction).
   - simpl in Hin. destruct Hin as [E|[]]. injection E as <- <- <-. simpl in Hp. lia.
   - cbn [tickets_pos tickets_of] in *. apply andb_prop in Hp. destruct Hp as [H1 H2].
@@ -1022,6 +1067,8 @@ Proof.
     cbn [stack_pos forallb] in Hp. apply andb_prop in Hp. destruct Hp as [H1 H2].
     inversion IH as [|? ? Hx Hr]; subst.
     apply in_app_or in Hin. destruct Hin as [Hin|Hin]; [eapply Hx; eassumption | eapply IHr; eassumption].
+  - cbn [tickets_pos tickets_of] in *. eapply IHl; eassumption.
+  - cbn [tickets_pos tickets_of] in *. eapply IHr; eassumption.
 Qed.
 
 (* ---- per-instruction specifications ---- *)
@@ -1067,14 +1114,14 @@ Fixpoint has_ticket (v : val) : bool :=
   match v with
   | VTicket _ _ _ => true
   | VPair a b => has_ticket a || has_ticket b
-  | VSome x => has_ticket x
+  | VSome x | VLeft x _ | VRight _ x => has_ticket x
   | VList _ l => (fix go (l : list val) : bool := match l with [] => false | x :: r => has_ticket x || go r end) l
   | _ => false
   end.
 
 Lemma has_ticket_not_duplicable v : wt v = true -> has_ticket v = true -> duplicable (type_of v) = false.
 Proof.
-  induction v as [| | | | a b IHa IHb | x IH | | t l IH | | big vt m IHm | la lr caps lbody IHc] using val_ind'; intros Hwt Hh; try discriminate Hh.
+  induction v as [| | | | a b IHa IHb | x IH | | t l IH | | big vt m IHm | la lr caps lbody IHc | lx ltr IHl | rtl rx IHr] using val_ind'; intros Hwt Hh; try discriminate Hh.
   - reflexivity.
   - cbn [wt has_ticket type_of duplicable] in *. apply andb_prop in Hwt. destruct Hwt as [W1 W2].
     apply orb_prop in Hh. destruct Hh as [Hh|Hh]; [rewrite (IHa W1 Hh) | rewrite (IHb W2 Hh), andb_false_r]; reflexivity.
@@ -1086,6 +1133,8 @@ Proof.
     apply orb_prop in Hh. destruct Hh as [Hh|Hh].
     + apply ty_eqb_eq in Ht. rewrite Ht. apply Px; assumption.
     + apply IHr; assumption.
+  - cbn [wt has_ticket type_of duplicable] in *. rewrite (IHl Hwt Hh). reflexivity.
+  - cbn [wt has_ticket type_of duplicable] in *. rewrite (IHr Hwt Hh), andb_false_r. reflexivity.
 Qed.
 
 Theorem dup_rejects_tickets f st x s :
